@@ -99,6 +99,27 @@ def ob_route(p1: str, p2: str, key: str, with_default: bool) -> bool:
     return check(ok)
 
 
+def ob_nested_composite(key: str, with_default: bool) -> bool:
+    """
+    pre: 1 <= len(key) <= part("nk") and all(c in "ab/" for c in key) and wf(key)
+    post: _
+    """
+    leaf = MemoryStore()
+    inner = MountPointStore(MemoryStore() if with_default else None).mount("n", leaf)
+    root = MountPointStore(MemoryStore()).mount("m", inner)
+    with quiet():
+        leaf.store(key, b"L", dict(tag="leaf"))
+        rk = leaf.to_root_key(key)
+        ok = rk == "m/n/" + key
+        ok = ok and root.get_bytes("m/n/" + key) == b"L" and root.get_metadata("m/n/" + key)["key"] == "m/n/" + key
+        ok = ok and "m/n/" + key in list(root.keys()) and bool(root.contains("m/n/" + key))
+        # and the other way round: a write through the root lands in the leaf under the stripped key
+        root.store("m/n/w/" + key, b"R", dict(tag="root"))
+        ok = ok and leaf.get_bytes("w/" + key) == b"R" and leaf.to_root_key("w/" + key) == "m/n/w/" + key
+        ok = ok and inner.to_root_key("n/" + key) == "m/n/" + key
+    return check(ok)
+
+
 # ------------------------------------------------------------------ union views
 FILES = ["a", "m/f", "m/n/g", "m/n2", "s/h", "d/e", "p/q/r", "mx"]
 TABLES = [[], ["m"], ["m", "m/n"], ["m", "s"], ["m/n"], ["m", "m/n", "s"], ["p/q", "m"]]
@@ -270,6 +291,8 @@ def obligations(tier):
             nkr = 3 if (q and l1 == 3 and l2 == 3) else nk
             obs.append(Ob("ob_route", dict(l1=l1, l2=l2, nk=nkr), timeout=180 if q else 1800, per_path=20,
                           bounds="two mounts with free symbolic prefixes |p1|=%d, |p2|=%d, key |k|<=%d over {a,b,/}, with/without default store" % (l1, l2, nkr)))
+    obs.append(Ob("ob_nested_composite", dict(nk=3 if q else 4), timeout=180 if q else 1200, per_path=20,
+                  bounds="a MountPointStore mounted at 'm' inside the root, a leaf mounted at 'n' inside it; free symbolic leaf key over {a,b,/}, with/without inner default"))
     cfgs = [0, 1, 2, 3, 4] if q else list(range(len(TABLES)))
     chunk = 64 if q else 64
     for kinds in (["memory"] if q else ["memory", "file"]):
